@@ -20,6 +20,7 @@ def step (_ : Unit) (j : Json) : Except String (Unit × Drv.Out) := do
   let mut st : RSt := { buflen := buflen }
   let mut mo : RouterSpec.Mon := { buflen := buflen }
   let mut mpend : List (Conn × List (List ServerMsg)) := []     -- the model's owed groups for stalled connections
+  let mut heldReply : List (Conn × List ServerMsg) := []        -- direct replies a stalled connection has not taken yet
   let mut o : Drv.Out := { nontrivial := true }
   o := o.tag s!"conns.{n}"
   o := o.tag s!"buflen.{buflen}"
@@ -39,6 +40,14 @@ def step (_ : Unit) (j : Json) : Except String (Unit × Drv.Out) := do
       cm := some (.req sub fs)
       st := (st.step (.subscribe c sub fs)).1
       mo := RouterSpec.stepReq mo c sub fs
+    else if k == "reqstalled" then
+      -- a REQ by a connection that is not reading: registered at once, its EOSE waits for the reader
+      let sub ← strF s "sub"
+      let fs ← asList filter (← fld s "filters")
+      st := (st.step (.subscribe c sub fs)).1
+      mo := RouterSpec.stepReq mo c sub fs
+      heldReply := nSet heldReply c ((nGet heldReply c).getD [] ++ [ServerMsg.eose sub])
+      o := o.tag "req.while-stalled"
     else if k == "close" then
       let sub ← strF s "sub"
       cm := some (.close sub)
@@ -51,11 +60,21 @@ def step (_ : Unit) (j : Json) : Except String (Unit × Drv.Out) := do
       st := (st.step (.unsubAll c)).1
       mo := RouterSpec.stepDisconnect mo c
       mpend := nErase mpend c
+      heldReply := nErase heldReply c
     else if k == "stall" then
       mo := { mo with stalled := c :: mo.stalled, pend := nSet mo.pend c [] }
       mpend := nSet mpend c []
     else if k == "resume" then
-      let got ← gotOf s c
+      let got0 ← gotOf s c
+      -- the held direct replies arrive now (their position among the queued deliveries is not constrained)
+      let held := (nGet heldReply c).getD []
+      let mut got := got0
+      for h in held do
+        if got.contains h then got := got.erase h
+        else
+          o := o.diff s!"step {idx}: resume of connection {c}: the reply {RouterSpec.descr h} to the REQ sent while stalled did not arrive"
+          o := o.mon "reply" "reply" s!"step {idx}: the REQ connection {c} sent while not reading was never answered by {RouterSpec.descr h}"
+      heldReply := nErase heldReply c
       let groups := (nGet mo.pend c).getD []
       let mgroups := (nGet mpend c).getD []
       for (cls, msg) in RouterSpec.judgeResume buflen c groups got do
